@@ -34,7 +34,24 @@ func c02Spaces(c *explore.Ctx) []wordSpace {
 		}
 		add("E", "ROLL1", 0, 3)
 		add("ML", "BIGC", 0, 3)
+		add("LCS", "BIGC", 0, 2)
+		add("LCM", "BIGC", 0, 2)
 	}
+	// free-list persistence: a base with a non-empty free list and two exactly full chains; reduced alphabet, deeper
+	fl := wordSpace{Base: "FL", Cfg: "BIGC", Depth: 4}
+	for _, r := range []string{"m2", "n0", "n1", "n2"} {
+		fl.Letters = append(fl.Letters, explore.Op{Kind: explore.Put, Key: r})
+	}
+	for _, r := range []string{"m2", "n0", "n1"} {
+		fl.Letters = append(fl.Letters, explore.Op{Kind: explore.Delete, Key: r})
+	}
+	if c.Thorough() {
+		fl.Depth = 5
+		add("LCS", "BIGC", 0, 3)
+		add("LCM", "BIGC", 0, 3)
+		add("FL", "BIGC", 0, 3)
+	}
+	sp = append(sp, fl)
 	return sp
 }
 
@@ -77,6 +94,9 @@ func runC02(c *explore.Ctx) {
 		}
 		explore.PinSeed(sp.Seed)
 		letters := append([]explore.Op{{Kind: explore.Reopen}}, explore.Letters(base.Alpha, explore.Compact, explore.Sync)...)
+		if sp.Letters != nil {
+			letters = append([]explore.Op{{Kind: explore.Reopen}}, sp.Letters...)
+		}
 		sp := sp
 		enumWords(c, letters, sp.Depth, func(word []explore.Op, checkFrom int) bool {
 			if c.Expired() {
